@@ -116,9 +116,39 @@ func parseHeaderCmd(args []string) int {
 				}
 			}
 			rec["map"] = mp
+			// "always": a caller may do what it likes with the map it was handed; a later call still reports the header
+			mp2 := map[string]interface{}{"record_type": []int{}, "timestamp": []int{}, "sequence": []int{}, "raw_msg": []int{}}
+			if m1 != nil && e1 == nil {
+				ms := m1.ToMapStr()
+				switch trace % 4 {
+				case 0:
+					delete(ms, "raw_msg")
+					ms["sequence"] = "0"
+				case 1:
+					ms["record_type"], ms["@timestamp"] = "x", "x"
+					delete(ms, "sequence")
+				case 2:
+					for k := range ms {
+						delete(ms, k)
+					}
+				}
+				ms = m1.ToMapStr()
+				for _, k := range [][2]string{{"record_type", "record_type"}, {"@timestamp", "timestamp"}, {"sequence", "sequence"}, {"raw_msg", "raw_msg"}} {
+					if s, ok := ms[k[0]].(string); ok {
+						mp2[k[1]] = bytesOfS(s)
+					}
+				}
+			}
+			rec["map2"] = mp2
 		}()
 		if rec["pl"] == nil {
-			rec["pl"], rec["p"], rec["map"] = hdrOf(nil, fmt.Errorf("x")), hdrOf(nil, fmt.Errorf("x")), map[string]interface{}{"record_type": []int{}, "timestamp": []int{}, "sequence": []int{}, "raw_msg": []int{}}
+			empty := func() map[string]interface{} {
+				return map[string]interface{}{"record_type": []int{}, "timestamp": []int{}, "sequence": []int{}, "raw_msg": []int{}}
+			}
+			rec["pl"], rec["p"], rec["map"], rec["map2"] = hdrOf(nil, fmt.Errorf("x")), hdrOf(nil, fmt.Errorf("x")), empty(), empty()
+		}
+		if rec["map2"] == nil {
+			rec["map2"] = rec["map"]
 		}
 		w.write(rec)
 		stats["headers"]++
